@@ -4,7 +4,7 @@
 . /verif/tools/env.sh
 declare -A OWN=( [0bf2da4]=C01 [3d7ccae]=C15 [f7e7de6]=C01 [0d2cc68]=C15 [4054bec]=C01 [f3cc4b0]=C01 [4be9f06]=C19 [d75c0b7]=C16
   [a3e2fb7]=C03 [99d9880]=C03 [febc181]=C03 [89bee85]=C05 [a2197b0]=C19 [d669d39]=C05 [d958749]=C05 [2ac2b7d]=C11 [649ff81]=C07
-  [c267ccc]=C03 [82cc1ce]=C03 [1afa9a0]=C10 [d399d73]=C10 [12b740b]=C15 )
+  [c267ccc]=C03 [82cc1ce]=C03 [1afa9a0]=C10 [d399d73]=C10 [12b740b]=C15 [732adbc]=C02 )
 WT=/tmp/revert-wt
 LIST="$@"; [ -z "$LIST" ] && LIST="${!OWN[@]}"
 for c in $LIST; do
